@@ -1,6 +1,7 @@
 #!/bin/bash
 # usage: merge_agent.sh Cxx  -- cherry-pick fix:/hook: commits of repo branch agent-Cxx into /repo main, merge verif branch agent-Cxx
 set -u
+[ "${MERGE_LOCKED:-}" = 1 ] || { export MERGE_LOCKED=1; exec flock /tmp/seed_pipeline.lock "$0" "$@"; }
 ID=$1
 cd /repo || exit 1
 git diff --quiet || { echo "/repo not clean"; exit 2; }
